@@ -122,6 +122,32 @@ func c05Generate(c *mon.Ctx) {
 		}
 	}
 
+	// the identity as the package's constructors hand it out (NewElement, Identity) and the generator from Base(), against
+	// every pool point in several representations and against each other
+	for i, pv := range pool.All {
+		reprs := gen.StructuredReprs(pv.P.IsInf())
+
+		for k := 5; k <= 7; k++ {
+			nat := mon.MkNatElemCase(pv, k)
+			b := mon.MkElemCase(pv, reprs[(i+k)%len(reprs)])
+			rel := "unrelated"
+
+			switch {
+			case k <= 6 && pv.P.IsInf():
+				rel = "P"
+			case k == 7 && !pv.P.IsInf() && pv.P.Equal(oracle.G()):
+				rel = "P"
+			}
+
+			c.Structured(func() any { return &c05Case{A: nat, B: b, Rel: rel} })
+			c.Structured(func() any { return &c05Case{A: b, B: nat, Rel: rel} })
+		}
+	}
+
+	n5, n6 := mon.MkNatElemCase(pool.All[0], 5), mon.MkNatElemCase(pool.All[0], 6)
+	c.Structured(func() any { return &c05Case{A: n5, B: n6, Rel: "P"} })
+	c.Structured(func() any { return &c05Case{A: n5, B: n5, Rel: "P"} })
+
 	// one operand's Z occupies a single stored limb, the other operand is scaled so that a cross product of the equality test
 	// (X2*Z1, Y2*Z1) has a small stored value: where a short-operand multiplication path must get its last carry right
 	small := gen.SmallStoredTargets()
